@@ -105,6 +105,10 @@ let dispatch (op : string) (x : v) : v =
       let filt = to_list to_pt filt in
       let filt = if to_bool norm then M.normalize_m filt else filt in
       of_opt (of_list of_crow) (M.conv_dir2_m filt (to_list to_sedm cube) (to_list to_z par))
+  | "mono", [wavs; wmin; wmax; chunk] ->
+      let ((lo, hi), out) = M.mono_m (to_list to_q wavs) (to_q wmin) (to_q wmax) (to_z chunk) in
+      L [of_z lo; of_z hi; of_list of_z out]
+  | "nearest", [wavs; w0] -> of_nat (M.nearest_m (to_list to_q wavs) (to_q w0))
   | "ndist", [l; step] -> of_z (M.ndist (to_q l) (to_q step))
   | "gridlog", [lo; hi; n] -> of_list of_q (M.gridlog_m (to_q lo) (to_q hi) (to_nat n))
   | "rank", [chi] -> of_list of_nat (M.rank_m (to_list to_xnum chi))
